@@ -9,7 +9,10 @@
 (* described by its SHAPE `sd`: header length, and for every symbol the     *)
 (* reference decoder finds in it: how many input bytes it consumes (number  *)
 (* of range-coder normalisations), how many output bytes it produces,       *)
-(* whether committing it fails ("errReal": bad distance / memory limit),    *)
+(* whether committing it fails ("errReal": bad distance / memory limit /   *)
+(* the SINK refusing the window that the symbol's output completes - a     *)
+(* write that fails because the sink failed latches the object like any    *)
+(* other failed write),                                                    *)
 (* fails even in the dry run ("errBoth": matched literal without source),   *)
 (* and whether the coder is clean (code = 0) after it.  Everything the      *)
 (* streaming decoder does - header staging in `tmp`, dry runs, stashing in  *)
